@@ -276,9 +276,9 @@ func (c *TrieCase) Build() (st *trie.SlimTrie, ec string, pan string) {
 	var err error
 	keys := append([]string{}, c.Keys...)
 	if c.NoOpt {
-		st, err = trie.NewSlimTrie(c.encoder(), keys, c.typedVals())
+		watched(func() { st, err = trie.NewSlimTrie(c.encoder(), keys, c.typedVals()) })
 	} else {
-		st, err = trie.NewSlimTrie(c.encoder(), keys, c.typedVals(), c.opt())
+		watched(func() { st, err = trie.NewSlimTrie(c.encoder(), keys, c.typedVals(), c.opt()) })
 	}
 	if err != nil {
 		return nil, errClass(err), ""
